@@ -5,6 +5,8 @@ V = os.path.dirname(os.path.dirname(os.path.abspath(__file__)))
 TECH = "bounded model checking of the real C sources with CBMC 6.11 (goto-cc from /repo's tree, SAT), counterexamples and reachability witnesses replayed natively under ASan/UBSan"
 CHECKS = {
  # id: (category, level text, level note, design_ref, technique override)
+ "C03": ("model_checking", "For every pair of entry lists within the length bound (all section interleavings incl. re-opened sections, duplicates, empty sides, constructor-made empty objects; keys symbolic) the merge result satisfies each clause of the statement and every array write stays inside base+override entries.",
+         "entry counts and section patterns are concrete per instance (all patterns up to A<->B renaming are enumerated as instances), keys symbolic; objects built in the parser's memory shape", "6/C03", None),
  "C04": ("model_checking", "Every CBMC memory-safety/overflow obligation in the parser and the follow-up API calls is discharged for all byte strings within the bound (all 256 byte values, every delimiter class, comment set and option); not a proof beyond the bound.",
          "bounds: file length/lines per instance (see evidence); libc/stdio models in env/; capacity model of strdup/realloc; allocation failure out of scope", "6/C04", None),
  "C08": ("model_checking", "For every value of each numeric type (all bit patterns) and every case variant of the boolean words the set/get pair is exact; decided symbolically, not sampled.",
